@@ -47,7 +47,7 @@ CHECKS["C18"] = dict(
           "subroutine bias step function at all breakpoints, nesting/stack limits, bounded interpreter recursion on every cycle, and "
           "visitor implementations without catch-all arms; blend takes its ItemVariationData index from the charstring's vsindex, else the "
           "Private DICT's, and pairs region scalars and deltas position by position (no skip/step adaptor on either side of the zip); the hint mask is read with ceil(stems_len/8) bytes after the stems still on "
-          "the stack were counted, on every path; CFF/CFF2 header layouts. Path arithmetic is not decided; operand-stack depth only through the audited indexing/arithmetic sites of C01."),
+          "the stack were counted, on every path; CFF/CFF2 header layouts; an operand stack's limit never exceeds its array. Path arithmetic is not decided; operand-stack depth only through the audited indexing/arithmetic sites of C01."),
     design_ref="DESIGN.md section 6, C18",
 )
 
@@ -72,7 +72,8 @@ CHECKS["C12"] = dict(
           "the bounding-box recursion is depth-bounded, and tables that declare a record size (MVAR, fvar) are read with that size as the "
           "array stride; per-iteration scratch buffers are reset inside their loop; delta and point iterators are zipped without skip/step "
           "adaptors; the X and Y deltas of a gvar tuple are read as one packed stream of 2n deltas; the readers of HVAR, ItemVariationStore, fvar, gvar, MVAR, "
-          "avar, STAT and cvar follow the specification's record layouts. All numeric clauses of the variation model are not decided."),
+          "avar, STAT and cvar follow the specification's record layouts; each MVAR value tag varies the field the specification assigns to it. "
+          "All numeric clauses of the variation model are not decided."),
     design_ref="DESIGN.md section 6, C12",
 )
 
@@ -95,7 +96,7 @@ CHECKS["C10"] = dict(
           "selected by tag equality inside Iterator::find (order independent), has_table/table_data agree on their selector, the WOFF reader "
           "inflates exactly under comp_length != orig_length and reads (offset, comp_length) with no length-limiting adaptor on the inflater, "
           "member functions receive the caller's own index, every decision on the sfnt version lists 0x00010000, 'true' and 'OTTO', the offset table, WOFF/WOFF2 headers and collection records "
-          "are read in the specifications' item order, and no explicit panic is left in the layer — so an "
+          "are read in the specifications' item order, the container kind follows the magic number alone, and no explicit panic is left in the layer — so an "
           "absent table or out-of-range member yields None/Err. Byte-for-byte equality of table data is not decided."),
     design_ref="DESIGN.md section 6, C10",
 )
@@ -118,7 +119,8 @@ CHECKS["C16"] = dict(
           "nested composite, the 2x2 transform entries reach the matrix in the specification's positions, outline and bounding box both honour "
           "SCALED_COMPONENT_OFFSET; and of contour walking: the start point and index range of a contour follow the on/off-curve decision table, "
           "the closing-edge look-ahead wraps modulo the contour length, every contour is one move_to..close sub-path, every point is "
-          "transformed exactly once, a glyph taken out of a borrowed table is put back on every exit. Coordinate decoding arithmetic and the numeric values of offsets and scales are not decided."),
+          "transformed exactly once, a glyph taken out of a borrowed table is put back on every exit, every point of a contour produces a segment, component "
+          "arguments are read signed/unsigned and 8/16-bit as the flags say. Coordinate decoding arithmetic and the numeric values of offsets and scales are not decided."),
     design_ref="DESIGN.md section 6 (C16) and 11.2",
 )
 CHECKS["C17"] = dict(
@@ -130,7 +132,7 @@ CHECKS["C17"] = dict(
           "modifier-combining-mark predicate is true exactly for the 14 marks of UTR #53; the Indic preprocessing steps run in their documented "
           "order; the NotReordered fast path ends below U+0300; the sort of a mark run is unconditional; the Bengali YA+NUKTA recomposition tests "
           "its two constants; the modified combining class table equals the documented one for every class in use; the Thai/Lao above-base "
-          "mark predicate equals the documented set. That the comparator realises AMTRA and that the "
+          "mark predicate equals the documented set; the script-specific reordering functions sort on every path. That the comparator realises AMTRA and that the "
           "decomposition tables are the documented ones is not decided."),
     design_ref="DESIGN.md section 6, C17",
 )
@@ -144,7 +146,7 @@ CHECKS["C04"] = dict(
           "positions inside a matched sequence come from the lookup-flag-aware iterator; nested lookups are depth bounded and receive the nested lookup's own match type; the three mark-skipping "
           "modes of match_glyph only ever reject marks; every FeatureMask flag has exactly one row, with its namesake tag, in the evaluated "
           "FEATURE_MASKS table; the readers of 23 OpenType Layout record types consume the specification's items in order, with their widths, "
-          "into fields of the same meaning. Glyph matching, "
+          "into fields of the same meaning; feature-variation conditions test their range inclusively. Glyph matching, "
           "context rule selection, iteration arithmetic and ligature bookkeeping are not decided."),
     design_ref="DESIGN.md section 6, C04",
 )
@@ -194,7 +196,8 @@ CHECKS["C07"] = dict(
           "new id, each SubsetGlyphs implementation answers old_id/new_id from the right map, the local-subr usage map handed to "
           "rebuild_local_subr_indices is keyed in the id space of the FDSelect it is looked up in, composite glyphs are recognised by the "
           "sign of numberOfContours, rebuilt subr INDEXes keep the source entry count (bias preserved), the FDSelect format 3 sentinel is the "
-          "glyph count, and the hmtx writer's long-metric count is the one stored in hhea. Equality of outlines and metrics and CFF subroutine renumbering are not decided."),
+          "glyph count, the hmtx writer's long-metric count is the one stored in hhea, and the charstring operator tables used when CFF2 is "
+          "converted to CFF are mutual inverses. Equality of outlines and metrics and CFF subroutine renumbering are not decided."),
     design_ref="DESIGN.md section 6, C07",
 )
 
@@ -203,7 +206,8 @@ CHECKS["C08"] = dict(
     technique="who-may-construct rule on the phantom-typed id-space marker, effect check that update_to_new_ids rewrites every value through new_id on the map it returns, signature rule on the cmap builders, comparison-discipline rule on the selection, exhaustive table reading of the Mac Roman tables, narrowing rule; compile_fail witness (thorough)",
     text=("Static decision of the id-space typestate behind C08 (MappingsToKeep<OldIds>/<NewIds> constructed in exactly two functions, every value "
           "translated through new_id, cmap builders accept only new ids), of the order-independent selection of mappings, of the mutual "
-          "inverseness of the Mac Roman tables, and of the absence of unchecked narrowing of ids and codes in the cmap builders. That the "
+          "inverseness of the Mac Roman tables, and of the absence of unchecked narrowing of ids and codes in the cmap builders; the requested cmap target reaches the selection unchanged; "
+          "format 4 adds idDelta only to non-zero glyphIdArray values. That the "
           "emitted sub-tables map each character to the right glyph is not decided."),
     design_ref="DESIGN.md section 6, C08",
 )
@@ -217,7 +221,7 @@ CHECKS["C15"] = dict(
           "position-derived offsets are relative; the CFF INDEX offSize is the specification's decision table applied to the largest "
           "offset actually written; a writer does not emit a computing accessor where the reader stored the raw item; the CFF integer "
           "operand ranges of the writers equal the specification; composite glyph reader and writer agree on the instruction flag; the readers of head, hhea, maxp, post, OS/2 and the CFF headers "
-          "follow the specification's item order. Equality of values, and data-dependent layouts beyond the compared prefix, are not decided."),
+          "follow the specification's item order; the OS/2 size threshold matches the bytes consumed. Equality of values, and data-dependent layouts beyond the compared prefix, are not decided."),
     design_ref="DESIGN.md section 6, C15",
 )
 
